@@ -90,6 +90,20 @@ CLAIMED = {
    note="Trusted: Coq kernel, extraction+driver, harness (sparse device), genzip.py, strictzip.py, Python crc32_combine. The writer state machine itself is not executed by the model at >4 GiB (contents cannot be materialised): at those sizes only the header writers are compared, the state machine is compared at small sizes (C01/C12); find_eocd's backward search is not part of the end-record theorem (hypothesis: position of the end record); a directory > 4 GiB is covered by the theorem only.",
    technique="Coq proof (ZIP64 field and end-record round trips for all 64-bit values, large-file guard lemmas) + sparse-device correspondence of header bytes at real >4 GiB sizes",
    design="8 (C08)"),
+ "C11": dict(
+   text="Machine-checked Coq theorems over the plan-driven sink of the writer model: a failing sink call is an error of the "
+        "primitive that leaves the bytes alone; no sink primitive (write_all under arbitrary short writes and failures, "
+        "stream_position, seek, flush, chunked header writes) ever yields a panic outcome, for every plan and every buffer.  "
+        "Fault enumeration is carried by the correspondence: for 19 (thorough 160+) writer scenarios mixing all entry kinds, "
+        "methods, extra data, alignment, ZipCrypto, raw copy, append, finish/drop and calls after finish, the k-th sink call "
+        "fails for EVERY k below the failure-free call count and the crate's per-call results and final sink bytes equal "
+        "the writer model's under the same plan (incl. the encoders' drop-time retry); reader scenarios (all methods, ZIP64, "
+        "ZipCrypto, AE-1/2, data descriptors, prefix, nested and concatenated archives, fake end record in the comment) and "
+        "open-for-append scenarios with the k-th source/device call failing for every k; oracle everywhere: no panic now or "
+        "later, and either some call reported an error or the outcome equals the failure-free one (found and fixed D20).",
+   note="Trusted: Coq kernel, extraction+driver, harness (fault-injecting sink/source/device), genzip.py. PARTIAL: 'no writer call panics and no failure is swallowed, for every call sequence and plan' as one Coq invariant theorem is pending; reader-side and append-open faults are decided on the implementation by the oracle only (the reader model has no failing source).",
+   technique="Coq proof (sink primitives never panic, failures are errors) + exhaustive single-fault enumeration compared call-by-call with the plan-driven writer model",
+   design="8 (C11)"),
  "C03": dict(
    text="Machine-checked Coq theorems over the reader model: lookup by name returns the LAST entry carrying the decoded "
         "name, an absent name and an out-of-range index are not-found, an undecodable method fails that entry only.  "
